@@ -88,4 +88,39 @@ def decodeWith (dec : List UInt64 → Nat → Option Verdict) (pattern : Option 
       else .panic                                       -- slice index out of range
   | _ => .panic
 
+/-! ### a live decoder handle: the decoder object behind the pointer keeps its buffers between calls -/
+
+/-- what the `*mut c_void` of the decoder points to: the parsed configuration and the state of the decoder object
+(built once by the constructor with `build_decoder`) -/
+structure DecObj where
+  hd : DecHandle
+  st : DecSt hd.impl.model
+
+/-- the object right after the constructor -/
+def DecObj.fresh (hd : DecHandle) : DecObj := ⟨hd, DecSt.fresh hd.impl.model hd.impl.sched hd.h⟩
+
+/-- `ldpc_toolbox_decoder_decode_f64` on a live handle: the wrapper logic of `decodeWith` around the decoder OBJECT
+(state threaded); returns the C results and the handle afterwards -/
+def DecObj.call (o : DecObj) (outputLen : Nat) (llrs : List UInt64) (maxIter : Nat) : Res ((Int × List Bool) × DecObj) :=
+  let dep : Res (List UInt64) := match o.hd.pattern with
+    | some p => depuncture (0 : UInt64) p llrs
+    | none => .ok llrs
+  match dep with
+  | .ok l =>
+    match o.st.decode o.hd.h l maxIter with
+    | none => .panic
+    | some (v, st') =>
+      if outputLen ≤ v.word.length then
+        .ok (((match v with | .success _ it => (it : Int) | .failure _ _ => -1), v.word.take outputLen), ⟨o.hd, st'⟩)
+      else .panic
+  | _ => .panic
+
+/-- a sequence of calls on one handle (a panic aborts the process: `none`) -/
+def DecObj.calls : DecObj → List (Nat × List UInt64 × Nat) → Option (List (Int × List Bool))
+  | _, [] => some []
+  | o, (outLen, llrs, maxIter) :: rest =>
+    match o.call outLen llrs maxIter with
+    | .ok (r, o') => (DecObj.calls o' rest).map (r :: ·)
+    | _ => none
+
 end LdpcV.Capi
